@@ -79,7 +79,7 @@ def r07ab(ctx):
     how = 'moduli extracted from the source expression, evaluated for n = 2..64'
     try:
         nb, bad_n, range_bad = _affine_products(f, npar, draws)
-    except AnalysisBroken as ex0:
+    except (AnalysisBroken, evalx.NotEvaluable) as ex0:
         # draws outside a canonical loop (e.g. one draw whose digits are peeled off): interval evaluation of the whole
         # generator for each concrete n (sa/drawinterp.py) -- moduli with the declared word width, subscripts as intervals
         from ..drawinterp import DrawInterp
